@@ -603,7 +603,7 @@ func runC20(c *run.Ctx) {
 		"the clean-up phase. Monitors: race detector log; trace invariants (<=1 delivery per (event,subscriber), <=1 clean-up per subscriber, nothing delivered after the removing unsubscribe returned, an event " +
 		"published after a subscription returned reaches it, publish count = deliveries, message = subscriber's selection of the event); porcupine linearizability of failure-free histories against the registry model " +
 		"(timeout => inconclusive); stall/deadlock snapshot monitor. A history is non-trivial when two calls overlap in time; distinct by (seed, history index)"
-	hist := c.N(800, 40000)
+	hist := c.N(800, 300000)
 	procs := c.N(8, 16)
 	work := filepath.Join(run.VerifDir(), ".work", fmt.Sprintf("c20-%d", os.Getpid()))
 	_ = os.MkdirAll(work, 0o755)
